@@ -1,10 +1,12 @@
 package aof
 
 import (
+	"errors"
 	"fmt"
 	"hash/crc64"
 
 	"go.miragespace.co/specter/kv/aof/proto"
+	"go.miragespace.co/specter/spec/chord"
 
 	bufPool "github.com/libp2p/go-buffer-pool"
 	"go.uber.org/zap"
@@ -32,7 +34,11 @@ func (d *DiskKV) replayLogs() error {
 			return fmt.Errorf("error decoding entry to mutation at index %d: %w", i, err)
 		}
 		if err := d.handleMutation(mut); err != nil {
-			return fmt.Errorf("error apply mutation to memory state at index %d: %w", i, err)
+			// a mutation that the store rejected is still in the log if the process stopped
+			// between appendLog and rollbackOne; it had no effect then and has none now
+			if !errors.Is(err, chord.ErrKVPrefixConflict) {
+				return fmt.Errorf("error apply mutation to memory state at index %d: %w", i, err)
+			}
 		}
 		entry.Reset()
 		mut.Reset()
